@@ -43,6 +43,23 @@ type c08call struct {
 	useDefault bool
 	filter     string
 	rogue      []byte // payload of an unsolicited extra message emitted before the reply (malformed stream)
+	// coverage elements (own random stream, see c08AddCoverage)
+	subID          int        // the reply itself carries <subscription-id>subID</subscription-id> (0: no)
+	notifBefore    []c08notif // notifications emitted right before / right after the reply
+	notifAfter     []c08notif
+	notifBetween   []c08notif // ... after the call returned
+	getSubs        []int      // GetSubscriptionMessages(id) after the call (and what follows it)
+	writeFail      bool       // the client's first write of this call fails: the request never leaves
+	writeFailFinal bool       // 1.1: the final return (third write) fails: the server has the request, the call fails
+}
+
+// c08notif is one unsolicited message. sub = the subscription it belongs to (0: none); msgid != 0:
+// its payload also carries the text message-id="msgid" (it is still not a reply to anything).
+type c08notif struct {
+	payload []byte
+	chunks  []int
+	sub     int
+	msgid   int
 }
 
 type c08plan struct {
@@ -60,6 +77,10 @@ type c08plan struct {
 	seg            []int
 	calls          []c08call
 	malformed      bool
+	selfClose      bool  // options.WithNetconfForceSelfClosingTags
+	subIDs         []int // subscription ids in use (GetSubscriptionMessages for each at the end)
+	faultAt        int   // > 0: the transport starts failing every read right before call faultAt
+	quotes         int   // directed: 1 = replies carry message-id='N', 2 = message-id = "N"
 }
 
 func c08Payload(r *vlib.Rng, v11 bool, bait int) []byte {
@@ -338,6 +359,100 @@ func (p c08plan) cell() string {
 	return "server=" + c + ",preferred=" + pr
 }
 
+func c08NotifPayload(sub, seq, msgid int, twoOnLine bool) []byte {
+	var b bytes.Buffer
+	b.WriteString(`<notification xmlns="urn:ietf:params:xml:ns:netconf:notification:1.0"><eventTime>2026-01-01T00:00:00Z</eventTime>`)
+	b.WriteString(`<push-update xmlns="urn:ietf:params:xml:ns:yang:ietf-yang-push">`)
+	if sub != 0 {
+		b.WriteString(`<subscription-id>` + strconv.Itoa(sub) + `</subscription-id>`)
+		if twoOnLine {
+			// the pattern's greedy .* takes the LAST id of a line: same id again, so the routing is unambiguous
+			b.WriteString(`<of><subscription-id>` + strconv.Itoa(sub) + `</subscription-id></of>`)
+		}
+	}
+	b.WriteString("\n<seq>" + strconv.Itoa(seq) + "</seq>")
+	if msgid != 0 {
+		b.WriteString(`<about message-id="` + strconv.Itoa(msgid) + `"/>`)
+	}
+	b.WriteString(`</push-update></notification>`)
+	return b.Bytes()
+}
+
+// c08AddCoverage decorates a plan with the elements the coverage review asked for, from its own
+// random stream (the base plan of a seed stays what it always was): notifications interleaved with
+// the replies (before / after a reply, between calls; with a subscription id, without one, with
+// message-id text of an OLD request), replies that carry a subscription id, GetSubscriptionMessages
+// calls, the ForceSelfClosingTags option, a client write that fails (the id is consumed, the
+// request never leaves), a transport that starts failing every read in mid-session.
+func c08AddCoverage(p *c08plan, h *vlib.Rng) {
+	p.selfClose = h.Chance(1, 6)
+	merged := p.echo == sim.C08EchoMerged || p.echo == sim.C08EchoCoalesced
+	seq := 0
+	if h.Chance(1, 3) && !p.malformed {
+		p.subIDs = []int{7}
+		if h.Bool() {
+			p.subIDs = append(p.subIDs, 4242)
+		}
+		mk := func(k int) c08notif {
+			seq++
+			n := c08notif{sub: p.subIDs[h.Intn(len(p.subIDs))]}
+			switch h.Intn(8) {
+			case 0:
+				n.sub = 0 // an unsolicited message of no subscription
+			case 1:
+				if k > 0 {
+					n.msgid = 101 + h.Intn(k) // text of an OLD request's id (harmless: nobody waits for it)
+				}
+			}
+			n.payload = c08NotifPayload(n.sub, seq, n.msgid, h.Chance(1, 5))
+			if p.v11 && h.Chance(1, 4) {
+				n.chunks = []int{bytes.IndexByte(n.payload, '>') + 1} // cut after the opening tag
+			}
+			return n
+		}
+		for k := range p.calls {
+			c := &p.calls[k]
+			if h.Chance(1, 4) {
+				for i := h.Range(1, 2); i > 0; i-- {
+					c.notifBefore = append(c.notifBefore, mk(k))
+				}
+			}
+			if h.Chance(1, 5) && !merged {
+				c.notifAfter = append(c.notifAfter, mk(k))
+			}
+			if h.Chance(1, 4) {
+				for i := h.Range(1, 3); i > 0; i-- {
+					c.notifBetween = append(c.notifBetween, mk(k))
+				}
+			}
+			if h.Chance(1, 3) {
+				c.getSubs = append(c.getSubs, p.subIDs[h.Intn(len(p.subIDs))])
+			}
+			if c.mode == 0 && c.rogue == nil && h.Chance(1, 6) {
+				c.subID = p.subIDs[h.Intn(len(p.subIDs))]
+				c.payload = []byte(`<rpc-reply xmlns="urn:ietf:params:xml:ns:netconf:base:1.0" message-id="` + c08IDToken +
+					`"><subscription-result xmlns="urn:ietf:params:xml:ns:yang:ietf-event-notifications">ok</subscription-result>` +
+					`<subscription-id>` + strconv.Itoa(c.subID) + `</subscription-id></rpc-reply>`)
+				c.chunks = nil
+			}
+		}
+	}
+	for k := range p.calls {
+		c := &p.calls[k]
+		if c.mode == 2 && c.rogue == nil && len(c.before)+len(c.after) == 0 && h.Chance(1, 8) {
+			c.writeFail = true
+			c.notifBefore, c.notifAfter = nil, nil
+		} else if p.v11 && p.echo <= sim.C08EchoSep && c.rogue == nil && k == len(p.calls)-1 && h.Chance(1, 5) {
+			// only as the last call: scrapligo's final return doubles as the line feed that opens
+			// the next request's first chunk, so after this failure the stream is no longer framed
+			c.writeFailFinal = true
+		}
+	}
+	if len(p.calls) >= 3 && h.Chance(1, 12) {
+		p.faultAt = h.Range(1, len(p.calls)-1)
+	}
+}
+
 func c08HistoryPlan(name string, v11 bool, echo int, spec []int) c08plan {
 	// spec: per call 4 numbers: mode, timeoutMs (0 = driver TimeoutOps), idleFactor
 	p := c08plan{name: name, v11: v11, echo: echo, seg: []int{1 << 20}, opsMs: 150}
@@ -372,7 +487,80 @@ func c08Directed(name string) (c08plan, bool) {
 		}
 		return p
 	}
+	okPayload := []byte(`<rpc-reply message-id="` + c08IDToken + `"><ok/></rpc-reply>`)
+	mkCalls := func(p c08plan, modes ...int) c08plan {
+		if len(p.seg) == 0 {
+			p.seg = []int{1 << 20}
+		}
+		for _, m := range modes {
+			p.calls = append(p.calls, c08call{mode: m, timeoutMs: 60, filter: "<a/>", payload: okPayload})
+		}
+		return p
+	}
 	switch name {
+	case "notif-interleaved-10", "notif-interleaved-11":
+		p := mkCalls(c08plan{name: name, v11: name == "notif-interleaved-11", echo: sim.C08EchoSep, subIDs: []int{7, 4242}, seg: []int{37, 1 << 20}}, 0, 1, 0, 2, 0)
+		n := func(sub, seq, msgid int) c08notif {
+			return c08notif{sub: sub, msgid: msgid, payload: c08NotifPayload(sub, seq, msgid, seq%3 == 0)}
+		}
+		p.calls[0].notifBefore = []c08notif{n(7, 1, 0), n(4242, 2, 0)}
+		p.calls[0].notifAfter = []c08notif{n(7, 3, 0)}
+		p.calls[1].notifBetween = []c08notif{n(0, 4, 0), n(7, 5, 0), n(4242, 6, 0)}
+		p.calls[1].release = []int{1}
+		p.calls[1].getSubs = []int{7}
+		p.calls[2].subID = 4242
+		p.calls[2].payload = []byte(`<rpc-reply message-id="` + c08IDToken + `"><subscription-id>4242</subscription-id></rpc-reply>`)
+		p.calls[2].notifBefore = []c08notif{n(7, 7, 0)}
+		p.calls[3].notifBefore = []c08notif{n(4242, 8, 0)}
+		p.calls[4].notifAfter = []c08notif{n(7, 9, 0), n(7, 10, 0)}
+		p.calls[4].getSubs = []int{4242}
+		return p, true
+	case "notif-with-old-message-id-text":
+		// harmless: the text names a request nobody waits for any more
+		p := mkCalls(c08plan{name: name, v11: false, subIDs: []int{7}}, 0, 0, 0)
+		p.calls[2].notifBefore = []c08notif{{sub: 7, msgid: 101, payload: c08NotifPayload(7, 1, 101, false)}}
+		return p, true
+	case "notif-with-live-message-id-text":
+		// a notification whose payload carries the text message-id="102" arrives while nobody waits
+		// for 102 yet; request 102 is made next
+		p := mkCalls(c08plan{name: name, v11: true, subIDs: []int{7}}, 0, 0, 0)
+		p.calls[0].notifBetween = []c08notif{{sub: 7, msgid: 102, payload: c08NotifPayload(7, 1, 102, false)}}
+		return p, true
+	case "id-single-quotes":
+		return mkCalls(c08plan{name: name, v11: false, quotes: 1}, 0, 0), true
+	case "id-spaces-around-equals":
+		return mkCalls(c08plan{name: name, v11: true, quotes: 2}, 0, 0), true
+	case "ids-beyond-1000":
+		p := c08plan{name: name, v11: true}
+		modes := make([]int, 1100)
+		p = mkCalls(p, modes...)
+		p.calls[1050].mode = 1
+		p.calls[1051].before = []int{1050}
+		return p, true
+	case "write-failure-consumes-id":
+		p := mkCalls(c08plan{name: name, v11: false, echo: sim.C08EchoSep}, 0, 2, 0, 2, 2, 0)
+		p.calls[1].writeFail = true
+		p.calls[3].writeFail = true
+		p.calls[4].writeFail = true
+		return p, true
+	case "final-return-write-fails-11":
+		// the reply to the failed call still arrives (the server had the whole request): it is
+		// filed under its id and must not reach anybody else
+		p := mkCalls(c08plan{name: name, v11: true, echo: sim.C08EchoSep}, 0, 1, 0)
+		p.calls[2].writeFailFinal = true
+		p.calls[2].before = []int{1}
+		return p, true
+	case "read-fault-midsession":
+		p := mkCalls(c08plan{name: name, v11: true, faultAt: 2}, 0, 1, 0, 0)
+		return p, true
+	case "late-replies-out-of-order":
+		// four calls time out; their replies come back later in the order 3,1,4,2 next to the reply of a fifth
+		p := mkCalls(c08plan{name: name, v11: true, echo: sim.C08EchoSep}, 1, 1, 1, 1, 0, 0)
+		p.calls[4].before = []int{2, 0}
+		p.calls[4].after = []int{3, 1}
+		return p, true
+	case "force-self-closing-tags":
+		return mkCalls(c08plan{name: name, v11: true, selfClose: true, echo: sim.C08EchoCoalesced}, 0, 0, 1, 0), true
 	case "matrix-both-preferred-10":
 		return three(c08plan{name: name, v11: false, matrix: true, caps10: true, caps11: true, preferred: "1.0"}), true
 	case "matrix-both-preferred-11":
@@ -428,7 +616,9 @@ func c08Directed(name string) (c08plan, bool) {
 	return c08plan{}, false
 }
 
-var c08DirectedNames = []string{"matrix-both-preferred-10", "matrix-both-preferred-11", "matrix-both-unset", "matrix-11-only",
+var c08DirectedNames = []string{"notif-interleaved-10", "notif-interleaved-11", "notif-with-old-message-id-text", "notif-with-live-message-id-text", "id-single-quotes",
+	"id-spaces-around-equals", "ids-beyond-1000", "write-failure-consumes-id", "final-return-write-fails-11", "read-fault-midsession", "late-replies-out-of-order",
+	"force-self-closing-tags", "matrix-both-preferred-10", "matrix-both-preferred-11", "matrix-both-unset", "matrix-11-only",
 	"matrix-10-only-preferred-10", "echo-coalesced-10", "echo-coalesced-11", "echo-coalesced-part-of-reply", "echo-coalesced-split-echo",
 	"hist-idle-after-success-10", "hist-idle-after-success-11", "hist-idle-default-timeout",
 	"hist-idle-after-timeout", "hist-short-then-long", "hist-long-then-short", "hist-many-in-a-row", "f13-split-id", "f13-split-id-echo", "chunked-id-intact", "f2-hashhash-cut", "f2-hashhash-whole", "f2-hashhash-prefix-cut"}
@@ -445,7 +635,9 @@ type c08outcome struct {
 }
 
 type c08unit struct {
-	kind         string // E R ER X (X = unsolicited bytes, outside every hypothesis)
+	kind         string // E R ER N X (N = notification / unsolicited well-formed message, X = unsolicited bytes outside every hypothesis)
+	sub          int    // the subscription id the message declares (0: none)
+	nmsgid       int    // N: message-id text the notification carries (0: none)
 	ebody, etail []byte
 	to           int // message-id the server saw in the request this reply answers
 	toIdx        int
@@ -461,8 +653,9 @@ type c08run struct {
 	version    string
 	srvVersion string
 	outcomes   []c08outcome
-	reqIDs     []int
+	reqIDs     []int // per CALL: the message-id the server saw in its request (-1: the request never arrived)
 	reqOK      []bool
+	subGot     map[int][][]byte // per subscription id: everything GetSubscriptionMessages returned, in call order
 	units      []c08unit
 	aligned    bool
 	nreads     int
@@ -502,8 +695,36 @@ func c08Execute(p c08plan, tscale int) (run c08run) {
 	}
 	srv := sim.NewC08ServerCaps(caps10, caps11)
 	srv.TrailingLF = p.trailingLF
+	var notifs []c08notif // tag -> notification
+	tagOf := func(ns []c08notif) []sim.C08Notif {
+		var out []sim.C08Notif
+		for _, n := range ns {
+			notifs = append(notifs, n)
+			out = append(out, sim.C08Notif{Payload: n.payload, Chunks: n.chunks, Tag: len(notifs) - 1})
+		}
+		return out
+	}
 	for _, c := range p.calls {
-		srv.Plans = append(srv.Plans, sim.C08Plan{Mode: c.mode, Payload: c.payload, Chunks: c.chunks, Before: c.before, After: c.after})
+		pay := c.payload
+		switch p.quotes {
+		case 1:
+			pay = bytes.Replace(pay, []byte(`message-id="`+c08IDToken+`"`), []byte(`message-id='`+c08IDToken+`'`), 1)
+		case 2:
+			pay = bytes.Replace(pay, []byte(`message-id="`+c08IDToken+`"`), []byte(`message-id = "`+c08IDToken+`"`), 1)
+		}
+		srv.Plans = append(srv.Plans, sim.C08Plan{Mode: c.mode, Payload: pay, Chunks: c.chunks, Before: c.before, After: c.after,
+			NotifBefore: tagOf(c.notifBefore), NotifAfter: tagOf(c.notifAfter)})
+	}
+	for k, c := range p.calls {
+		if !c.writeFail {
+			srv.PlanOrder = append(srv.PlanOrder, k)
+		}
+		if c.writeFailFinal {
+			if srv.FailFinalWrite == nil {
+				srv.FailFinalWrite = map[int]bool{}
+			}
+			srv.FailFinalWrite[k] = true
+		}
 	}
 	srv.Rogue = map[int][]byte{}
 	for i, c := range p.calls {
@@ -517,6 +738,9 @@ func c08Execute(p c08plan, tscale int) (run c08run) {
 		options.WithTimeoutOps(2 * time.Second), options.WithReadDelay(50 * time.Microsecond)}
 	if p.matrix && p.preferred != "" {
 		dopts = append(dopts, options.WithNetconfPreferredVersion(p.preferred))
+	}
+	if p.selfClose {
+		dopts = append(dopts, options.WithNetconfForceSelfClosingTags())
 	}
 	d, err := netconf.NewDriver("h", dopts...)
 
@@ -558,7 +782,19 @@ func c08Execute(p c08plan, tscale int) (run c08run) {
 	if p.opsMs > 0 {
 		d.Channel.TimeoutOps = time.Duration(p.opsMs*tscale) * time.Millisecond
 	}
+	run.subGot = map[int][][]byte{}
 	for k, c := range p.calls {
+		if p.faultAt > 0 && k == p.faultAt {
+			// the transport dies: every read fails from here on, the server says nothing any more
+			srv.Snapshot(func() {
+				srv.Mute = true
+				srv.ErrAt = srv.Delivered
+				srv.Wake()
+			})
+		}
+		if c.writeFail {
+			srv.Snapshot(func() { srv.WriteErrAfter = srv.Written })
+		}
 		if k > 0 && c.idleFactor > 0 {
 			// the session idles: nothing is sent, nothing arrives
 			time.Sleep(time.Duration(c.idleFactor*p.timeoutOf(k-1)*tscale+15) * time.Millisecond)
@@ -588,15 +824,47 @@ func c08Execute(p c08plan, tscale int) (run c08run) {
 			}
 		}()
 		run.outcomes = append(run.outcomes, o)
+		if c.writeFail || c.writeFailFinal {
+			srv.Snapshot(func() { srv.WriteErrAfter = -1 })
+		}
 		waitQuiet()
 		snap()
 		for _, j := range c.release {
 			srv.ReleaseLate(j)
 		}
+		for _, n := range tagOf(c.notifBetween) {
+			srv.EmitNotification(n)
+		}
 		waitQuiet()
 		snap()
+		for _, id := range c.getSubs {
+			time.Sleep(time.Duration(tscale) * time.Millisecond)
+			run.subGot[id] = append(run.subGot[id], d.GetSubscriptionMessages(id)...)
+		}
 	}
 	time.Sleep(2 * time.Millisecond)
+	// collect what is left in the subscription store; the read loop may still be working through
+	// its queue, so ask until the expected number of messages has come out (bounded)
+	for _, id := range p.subIDs {
+		want := 0
+		for _, n := range notifs {
+			if n.sub == id {
+				want++
+			}
+		}
+		for k, c := range p.calls {
+			if c.subID == id && c.mode == 0 && !c.writeFail && !(p.faultAt > 0 && k >= p.faultAt) {
+				want++
+			}
+		}
+		for i := 0; i < 150*tscale; i++ {
+			run.subGot[id] = append(run.subGot[id], d.GetSubscriptionMessages(id)...)
+			if len(run.subGot[id]) >= want || p.faultAt > 0 {
+				break
+			}
+			time.Sleep(2 * time.Millisecond)
+		}
+	}
 	closed := make(chan error, 1)
 	go func() { closed <- d.Close() }()
 	select {
@@ -605,12 +873,11 @@ func c08Execute(p c08plan, tscale int) (run c08run) {
 		run.note = "close-hung"
 	}
 	segs, reads, total := srv.Stream()
-	srv.Snapshot(func() {
-		for _, q := range srv.Requests {
-			run.reqIDs = append(run.reqIDs, q.MessageID)
-			run.reqOK = append(run.reqOK, q.FrameOK)
-		}
-	})
+	for k := range p.calls {
+		id, ok := srv.RequestIDOf(k)
+		run.reqIDs = append(run.reqIDs, id)
+		run.reqOK = append(run.reqOK, ok)
+	}
 	run.nreads = len(reads)
 	// group the emitted segments into units
 	phaseOf := func(segIdx int) int {
@@ -641,18 +908,25 @@ func c08Execute(p c08plan, tscale int) (run c08run) {
 			u.end = len(stream)
 		case s.Kind == "echo":
 			run.units = append(run.units, c08unit{kind: "E", ebody: s.Body, start: start, end: len(stream), phase: phaseOf(i)})
+		case s.Kind == "msg":
+			n := notifs[s.To]
+			run.units = append(run.units, c08unit{kind: "N", sub: n.sub, nmsgid: n.msgid, toIdx: -1, body: s.Body, tail: append([]byte{}, s.Tail...), start: start, end: len(stream), phase: phaseOf(i)})
 		case s.Kind == "rogue":
 			run.units = append(run.units, c08unit{kind: "X", body: append(append([]byte{}, s.Body...), s.Tail...), start: start, end: len(stream), phase: phaseOf(i)})
 		default:
 			to := 0
-			if s.To < len(run.reqIDs) {
+			if s.To < len(run.reqIDs) && run.reqIDs[s.To] > 0 {
 				to = run.reqIDs[s.To]
+			}
+			sub := 0
+			if s.To < len(p.calls) {
+				sub = p.calls[s.To].subID
 			}
 			if s.Merged && last >= 0 && run.units[last].kind == "E" {
 				u := &run.units[last]
-				u.kind, u.to, u.toIdx, u.body, u.tail, u.end = "ER", to, s.To, s.Body, append([]byte{}, s.Tail...), len(stream)
+				u.kind, u.to, u.toIdx, u.body, u.tail, u.end, u.sub = "ER", to, s.To, s.Body, append([]byte{}, s.Tail...), len(stream), sub
 			} else {
-				run.units = append(run.units, c08unit{kind: "R", to: to, toIdx: s.To, body: s.Body, tail: append([]byte{}, s.Tail...), start: start, end: len(stream), phase: phaseOf(i)})
+				run.units = append(run.units, c08unit{kind: "R", sub: sub, to: to, toIdx: s.To, body: s.Body, tail: append([]byte{}, s.Tail...), start: start, end: len(stream), phase: phaseOf(i)})
 			}
 		}
 	}
@@ -702,9 +976,19 @@ func c08Script(run c08run, resetAfter map[int]bool, idleEvery bool) string {
 			case "E":
 				items = append(items, fmt.Sprintf("D|E:%s:%s|%s", vlib.Hex(u.ebody), vlib.Hex(u.etail), vlib.HexList(cs)))
 			case "R":
-				items = append(items, fmt.Sprintf("D|R:%d:%s:%s|%s", u.to, vlib.Hex(u.body), vlib.Hex(u.tail), vlib.HexList(cs)))
+				if u.sub != 0 {
+					items = append(items, fmt.Sprintf("D|M:%d:%d:%s:%s|%s", u.to, u.sub, vlib.Hex(u.body), vlib.Hex(u.tail), vlib.HexList(cs)))
+				} else {
+					items = append(items, fmt.Sprintf("D|R:%d:%s:%s|%s", u.to, vlib.Hex(u.body), vlib.Hex(u.tail), vlib.HexList(cs)))
+				}
+			case "N":
+				items = append(items, fmt.Sprintf("D|M:0:%d:%s:%s|%s", u.sub, vlib.Hex(u.body), vlib.Hex(u.tail), vlib.HexList(cs)))
 			case "ER":
-				items = append(items, fmt.Sprintf("D|ER:%s:%s:%d:%s:%s|%s", vlib.Hex(u.ebody), vlib.Hex(u.etail), u.to, vlib.Hex(u.body), vlib.Hex(u.tail), vlib.HexList(cs)))
+				if u.sub != 0 {
+					items = append(items, fmt.Sprintf("D|EM:%s:%s:%d:%d:%s:%s|%s", vlib.Hex(u.ebody), vlib.Hex(u.etail), u.to, u.sub, vlib.Hex(u.body), vlib.Hex(u.tail), vlib.HexList(cs)))
+				} else {
+					items = append(items, fmt.Sprintf("D|ER:%s:%s:%d:%s:%s|%s", vlib.Hex(u.ebody), vlib.Hex(u.etail), u.to, vlib.Hex(u.body), vlib.Hex(u.tail), vlib.HexList(cs)))
+				}
 			default:
 				for _, c := range cs {
 					items = append(items, "R"+vlib.Hex(c))
@@ -724,14 +1008,33 @@ func c08Script(run c08run, resetAfter map[int]bool, idleEvery bool) string {
 		if k > 0 && cl.idleFactor > 0 {
 			items = append(items, fmt.Sprintf("T%d", cl.idleFactor*run.plan.timeoutOf(k-1)+15)) // idle gap
 		}
-		// the call arms its own timer; everything the server sends at once arrives "now"; then the
-		// rest of the timeout passes
-		items = append(items, fmt.Sprintf("C%d", tmo), "P")
-		emitPhase(2*k, true)
-		items = append(items, fmt.Sprintf("T%d", tmo))
-		emitPhase(2*k+1, false)
+		if cl.writeFail || cl.writeFailFinal {
+			// the id is consumed, then the call fails at once (write error)
+			items = append(items, fmt.Sprintf("C%d", tmo), "X")
+			emitPhase(2*k, true)
+			emitPhase(2*k+1, false)
+		} else if run.plan.faultAt > 0 && k >= run.plan.faultAt {
+			// the request is written, the caller starts polling and the transport error reaches it:
+			// it gets the error, or a message that was filed under its id before the transport died
+			items = append(items, fmt.Sprintf("C%d", tmo), "P", "X")
+			emitPhase(2*k, true)
+			emitPhase(2*k+1, false)
+		} else {
+			// the call arms its own timer; everything the server sends at once arrives "now"; then
+			// the rest of the timeout passes
+			items = append(items, fmt.Sprintf("C%d", tmo), "P")
+			emitPhase(2*k, true)
+			items = append(items, fmt.Sprintf("T%d", tmo))
+			emitPhase(2*k+1, false)
+		}
+		for _, id := range cl.getSubs {
+			items = append(items, fmt.Sprintf("G%d", id))
+		}
 	}
 	emitPhase(1<<30, false)
+	for _, id := range run.plan.subIDs {
+		items = append(items, fmt.Sprintf("G%d", id))
+	}
 	return strings.Join(items, ";")
 }
 
@@ -742,6 +1045,7 @@ var (
 	c08ReDelim10 = regexp.MustCompile(`]]>]]>`)
 	c08ReDelim11 = regexp.MustCompile(`(?m)^##$`)
 	c08ReMsgID   = regexp.MustCompile(`(?i)(?:message-id="(\d+)")`)
+	c08ReSubID   = regexp.MustCompile(`(?i)<subscription-id.*>(\d+)</subscription-id>`)
 )
 
 func c08GoScan(b []byte) string {
@@ -763,13 +1067,21 @@ func c08GoScan(b []byte) string {
 		}
 		return "0"
 	}
-	return fmt.Sprintf("%s %s %s %s %s %s", b2(c08ReDelim10.Match(b)), b2(c08ReDelim11.Match(b)), after(c08ReDelim10), after(c08ReDelim11), b2(bytes.Contains(b, []byte("</rpc>"))), id)
+	sub := "N"
+	if m := c08ReSubID.FindSubmatch(b); len(m) == 2 {
+		n, _ := strconv.Atoi(string(m[1]))
+		sub = strconv.Itoa(n)
+	}
+	return fmt.Sprintf("%s %s %s %s %s %s %s %s", b2(c08ReDelim10.Match(b)), b2(c08ReDelim11.Match(b)), after(c08ReDelim10), after(c08ReDelim11), b2(bytes.Contains(b, []byte("</rpc>"))), id,
+		b2(bytes.Contains(b, []byte("</subscription-id>"))), sub)
 }
 
 func c08ScanStrings(r *vlib.Rng, n int) [][]byte {
 	frags := []string{"]]>]]>", "]]>]]", "]]>", "]", ">", "##", "#", "\n", "\n##\n", "\n##", "##\n", "\n#12\n", "</rpc>", "</rpc", "</rpc-reply>",
 		`message-id="`, `MESSAGE-ID="`, `Message-Id="`, `message-id=`, `essage-id="`, `message_id="`, `"`, "1", "0", "101", "000", "9223372036854775807", "9223372036854775808", "18446744073709551616",
-		"a", " ", "<", "é", "\r", "x\n", "##x", "x##"}
+		"a", " ", "<", "é", "\r", "x\n", "##x", "x##",
+		`message-id='`, `'`, `message-id = "`, `message-id="-`, `message-id="+`, `message-id="a`,
+		"<subscription-id>", "</subscription-id>", "<SUBSCRIPTION-ID>", "</Subscription-Id>", "<subscription-id xmlns=\"u\">", "<subscription-id", ">", "7", "42</subscription-id>", "<subscription-id>7</subscription-id>", "</subscription-id", "<sub"}
 	out := [][]byte{{}, []byte("##"), []byte("\n##"), []byte("##\n"), []byte("a##"), []byte("##a"), []byte(`message-id="7"`), []byte(`message-id=""`), []byte(`message-id="7`), []byte(`message-id="0"`), []byte(`message-id="00012"`)}
 	for i := 0; i < n; i++ {
 		var b []byte
@@ -873,6 +1185,7 @@ func runC08(c *ctx) {
 			pp := c08GenPlan(vlib.NewRng(seed), mc)
 			c08AddHistory(&pp, vlib.NewRng(seed^0x5bd1e9955bd1e995))
 			c08AddMatrix(&pp, vlib.NewRng(seed^0x27d4eb2f165667c5))
+			c08AddCoverage(&pp, vlib.NewRng(seed^0x94d049bb133111eb))
 			pp.name = fmt.Sprintf("seed-%d", seed)
 			jobs = append(jobs, job{c.replay, pp})
 		}
@@ -891,6 +1204,7 @@ func runC08(c *ctx) {
 			p := c08GenPlan(vlib.NewRng(seed), mc)
 			c08AddHistory(&p, vlib.NewRng(seed^0x5bd1e9955bd1e995))
 			c08AddMatrix(&p, vlib.NewRng(seed^0x27d4eb2f165667c5))
+			c08AddCoverage(&p, vlib.NewRng(seed^0x94d049bb133111eb))
 			p.name = fmt.Sprintf("seed-%d", seed)
 			jobs = append(jobs, job{fmt.Sprintf("c08 plan %d %d", seed, mc), p})
 		}
@@ -954,7 +1268,7 @@ func runC08(c *ctx) {
 		}
 		ans := c.ask([]string{"c08 sess " + ver + " " + script})[0]
 		f := strings.Fields(ans)
-		if len(f) != 5 {
+		if len(f) != 6 {
 			res.Fail("machinery", jb.line, "driver answered "+ans, "driver")
 			return false
 		}
@@ -979,6 +1293,16 @@ func runC08(c *ctx) {
 				continue
 			}
 			if di < len(L.reasons) {
+				if p.quotes != 0 {
+					// the id attribute is there, but not in the one spelling the pattern accepts
+					parts := strings.Split(L.reasons[di], "+")
+					for i := range parts {
+						if parts[i] == "id" {
+							parts[i] = "idsyntax"
+						}
+					}
+					L.reasons[di] = strings.Join(parts, "+")
+				}
 				unitReason[ui] = L.reasons[di]
 				if u.kind == "R" || u.kind == "ER" {
 					reasonOf[u.toIdx] = L.reasons[di]
@@ -1015,7 +1339,7 @@ func runC08(c *ctx) {
 		var cfModel []string
 		if len(faulty) > 0 {
 			cf := strings.Fields(c.ask([]string{"c08 sess " + ver + " " + c08Script(run, faulty, false)})[0])
-			if len(cf) == 5 {
+			if len(cf) == 6 {
 				_, cfModel = c08ParseResults(cf[2])
 			}
 		}
@@ -1073,12 +1397,36 @@ func runC08(c *ctx) {
 		idleCount := 0
 		var idleModel []string
 		// ids
+		// calls whose request cannot reach the server (failed write) or cannot be answered (dead
+		// transport): they must return an error, and they still consume an id
+		expectErr := make([]bool, len(p.calls))
+		noRequest := make([]bool, len(p.calls))
+		for k, cl := range p.calls {
+			if cl.writeFail {
+				expectErr[k], noRequest[k] = true, true
+			}
+			if cl.writeFailFinal {
+				expectErr[k] = true
+			}
+			if p.faultAt > 0 && k >= p.faultAt {
+				expectErr[k], noRequest[k] = true, true
+			}
+		}
 		idBase := 0
-		if len(run.reqIDs) > 0 {
-			idBase = run.reqIDs[0]
+		for k := range p.calls {
+			if !noRequest[k] && k < len(run.reqIDs) {
+				idBase = run.reqIDs[k] - k
+				break
+			}
 		}
 		for k := range p.calls {
 			want := idBase + k
+			if noRequest[k] {
+				if k < len(run.reqIDs) && run.reqIDs[k] >= 0 {
+					fails = append(fails, fail{"machinery", fmt.Sprintf("request %d reached the server although its write was made to fail; session %s", k, p.name), "harness-write-fail"})
+				}
+				continue
+			}
 			if k >= len(run.reqIDs) || !run.reqOK[k] || run.reqIDs[k] != want || want == 0 {
 				got := -1
 				if k < len(run.reqIDs) {
@@ -1099,6 +1447,24 @@ func runC08(c *ctx) {
 				impl = vlib.Hex(o.raw)
 			}
 			desc := fmt.Sprintf("call %d (id %d, v%s, echo=%d, mode=%d)", k, idBase+k, ver, p.echo, cl.mode)
+			if expectErr[k] {
+				what := "its write failed"
+				if !cl.writeFail && !cl.writeFailFinal {
+					what = "the transport fails every read"
+				}
+				stored := false // a message was filed under this id before the transport died
+				if o.class == "nil" && !cl.writeFail && !cl.writeFailFinal && L.model[k] != "T" {
+					mb, _ := vlib.UnHex(L.model[k])
+					stored = bytes.Equal(c08TrimLF(mb), c08TrimLF(o.raw))
+				}
+				if o.class == "nil" && !stored {
+					fails = append(fails, fail{"oracle", desc + fmt.Sprintf(": returned %q although %s (a call returns the reply to its own request or an error); session %s", o.raw, what, p.name), "reply-from-nowhere"})
+				}
+				if ((cl.writeFail || cl.writeFailFinal) && L.model[k] != "T") || L.spec[k] != "T" {
+					fails = append(fails, fail{"machinery", desc + ": model/spec do not fail a call that cannot be answered: " + ans, "model-failed-call"})
+				}
+				continue
+			}
 			sess := fmt.Sprintf("; session %s [%s] timeout=%dms idle-before=%dx chunks=%v seg=%v payload=%q", p.name, p.cell(), p.timeoutOf(k), cl.idleFactor, cl.chunks, p.seg, cl.payload)
 			// unconditional: whatever comes back carries the caller's id first
 			if o.class == "nil" {
@@ -1148,7 +1514,7 @@ func runC08(c *ctx) {
 				if idleModel == nil {
 					ia := strings.Fields(c.ask([]string{"c08 sess " + ver + " " + c08Script(run, nil, true)})[0])
 					idleModel = []string{}
-					if len(ia) == 5 {
+					if len(ia) == 6 {
 						_, idleModel = c08ParseResults(ia[2])
 					}
 				}
@@ -1220,6 +1586,86 @@ func runC08(c *ctx) {
 				fails = append(fails, fail{"oracle", desc + ": " + got + ", " + exp + sess, sig})
 			}
 		}
+		// the subscription store: per subscription id, everything GetSubscriptionMessages handed out
+		// over the session, concatenated, must be exactly the messages the server sent for that
+		// subscription, in order, once (the individual calls only partition that sequence)
+		if len(p.subIDs) > 0 {
+			modelSubs := map[int][][]byte{}
+			if f[5] != "." {
+				for _, ent := range strings.Split(f[5], ";") {
+					kv := strings.SplitN(ent, "=", 2)
+					id, _ := strconv.Atoi(kv[0])
+					if len(kv) == 2 && kv[1] != "." {
+						for _, h := range strings.Split(kv[1], ",") {
+							b, _ := vlib.UnHex(h)
+							modelSubs[id] = append(modelSubs[id], c08TrimLF(b))
+						}
+					}
+				}
+			}
+			same := func(a, b [][]byte) bool {
+				if len(a) != len(b) {
+					return false
+				}
+				for i := range a {
+					if !bytes.Equal(c08TrimLF(a[i]), c08TrimLF(b[i])) {
+						return false
+					}
+				}
+				return true
+			}
+			show := func(a [][]byte) string {
+				var q []string
+				for _, m := range a {
+					t := string(c08TrimLF(m))
+					if i := strings.Index(t, "<seq>"); i >= 0 {
+						t = "notification" + t[i:strings.Index(t, "</seq>")+6]
+					} else if len(t) > 60 {
+						t = t[:60] + "…"
+					}
+					q = append(q, strconv.Quote(t))
+				}
+				return "[" + strings.Join(q, ", ") + "]"
+			}
+			for _, id := range p.subIDs {
+				var spec [][]byte
+				cause := "in-domain"
+				for ui, u := range run.units {
+					if (u.kind == "N" || u.kind == "R" || u.kind == "ER") && u.sub == id {
+						spec = append(spec, c08TrimLF(u.body))
+						if r := unitReason[ui]; r != "ok" && r != "" && cause == "in-domain" {
+							cause = c08cause(r)
+						}
+					}
+				}
+				if !L.dom && cause == "in-domain" {
+					cause = "session-outside-hypotheses"
+				}
+				impl := run.subGot[id]
+				res.Distribution["subscription-messages-expected"] += len(spec)
+				if !same(impl, modelSubs[id]) && !same(impl, spec) {
+					if len(impl) < len(modelSubs[id]) {
+						lostTiming = true
+					}
+					fails = append(fails, fail{"correspondence", fmt.Sprintf("GetSubscriptionMessages(%d) over the session: impl %s, model %s; session %s", id, show(impl), show(modelSubs[id]), p.name), "impl-vs-model-subscriptions"})
+				}
+				if inProp && !same(impl, spec) {
+					effect := "wrong"
+					if len(impl) < len(spec) {
+						effect = "lost"
+						if cause == "in-domain" {
+							lostTiming = true
+						}
+					} else if len(impl) > len(spec) {
+						effect = "extra"
+					}
+					fails = append(fails, fail{"oracle", fmt.Sprintf("GetSubscriptionMessages(%d) over the session returned %s, the server sent for that subscription %s (in order, each exactly once); session %s", id, show(impl), show(spec), p.name), "notifications-" + effect + ":" + cause})
+				}
+				if L.dom && inProp && !same(modelSubs[id], spec) {
+					fails = append(fails, fail{"machinery", fmt.Sprintf("in-domain but the model's subscription messages %s differ from the server's %s; session %s", show(modelSubs[id]), show(spec), p.name), "model-vs-spec-subscriptions"})
+				}
+			}
+		}
 		if lostTiming && !final {
 			return true
 		}
@@ -1238,6 +1684,30 @@ func runC08(c *ctx) {
 		res.Count(fmt.Sprintf("version:%s", ver))
 		res.Count(fmt.Sprintf("echo:%d", p.echo))
 		res.Count("matrix:" + p.cell())
+		if p.selfClose {
+			res.Count("option:ForceSelfClosingTags")
+		}
+		if p.faultAt > 0 {
+			res.Count("history:transport-read-fault-midsession")
+		}
+		if len(p.subIDs) > 0 {
+			res.Count("sessions-with-subscriptions")
+		}
+		outstanding, maxOut := 0, 0
+		for _, cl := range p.calls {
+			if cl.mode == 1 {
+				outstanding++
+			}
+			outstanding -= len(cl.before) + len(cl.after)
+			if outstanding > maxOut {
+				maxOut = outstanding
+			}
+			for _, j := range cl.release {
+				_ = j
+				outstanding--
+			}
+		}
+		res.Count(fmt.Sprintf("max-outstanding-late-replies:%d", maxOut))
 		res.Count(fmt.Sprintf("calls:%02d-%02d", len(p.calls)/5*5, len(p.calls)/5*5+4))
 		if L.dom {
 			res.Count("theorem-hypotheses:hold")
@@ -1261,6 +1731,19 @@ func runC08(c *ctx) {
 			if cl.useDefault {
 				res.Count("history:driver-TimeoutOps-in-force")
 			}
+			if n := len(cl.notifBefore) + len(cl.notifAfter) + len(cl.notifBetween); n > 0 {
+				res.Distribution["notifications"] += n
+			}
+			if cl.subID != 0 {
+				res.Count("reply-carrying-subscription-id")
+			}
+			if cl.writeFail {
+				res.Count("history:client-write-fails")
+			}
+			if cl.writeFailFinal {
+				res.Count("history:client-final-return-write-fails")
+			}
+			res.Distribution["GetSubscriptionMessages-calls"] += len(cl.getSubs)
 			res.Count("outcome:" + run.outcomes[k].class)
 			if len(cl.before)+len(cl.after) > 0 {
 				res.Count("late-reply-next-to-a-reply")
@@ -1441,6 +1924,10 @@ func c08cause(reason string) string {
 			out = append(out, "hash-hash-line-at-read-boundary")
 		case "ok":
 			out = append(out, "in-domain")
+		case "idsyntax":
+			out = append(out, "msgid-attribute-spelling")
+		case "nid":
+			out = append(out, "notification-carries-message-id-text")
 		case "unattributed", "unsolicited":
 			out = append(out, r)
 		default:
